@@ -331,6 +331,21 @@ def findIdx (ids : List Int) (v : Int) : Option Nat :=
   let hits := (enum ids).filter (fun p => p.2 = v)
   hits.getLast?.map (·.1)
 
+/-- one CONECT record: the (center, partner) index pairs it contributes -/
+def conectPairs (ids : List Int) (l : List Char) : R (List (Nat × Nat)) :=
+  match decodeH36 (slice 6 11 l) with
+  | .error e => some (.error e)
+  | .ok cid =>
+    match findIdx ids cid with
+    | none => none
+    | some c =>
+      let fields := [slice 11 16 l, slice 16 21 l, slice 21 26 l, slice 26 31 l]
+      let decoded := (fields.map decodeH36).takeWhile (fun r => match r with | .ok _ => true | .error _ => false)
+      let ps := decoded.filterMap (fun r => match r with | .ok v => some v | .error _ => none)
+      match ps.mapM (findIdx ids) with
+      | none => none
+      | some js => some (.ok (js.map fun j => (c, j)))
+
 /-- `_get_bonds` for strictly positive, strictly increasing atom ids whose CONECT ids all occur
 among the atoms; anything else is outside the model. -/
 def readBonds (ids : List Int) (lines : List (List Char)) : R (List (Nat × Nat)) :=
@@ -339,20 +354,7 @@ def readBonds (ids : List Int) (lines : List (List Char)) : R (List (Nat × Nat)
   if ids.all (fun i => 0 < i) && ids.any (fun i => decide (ids.getLast?.getD 0 < i)) then some (.error .invalidFile) else
   if !incr || ids.isEmpty then none else
   let con := lines.filter (startsWith "CONECT".toList)
-  let perLine : List Char → R (List (Nat × Nat)) := fun l =>
-    match decodeH36 (slice 6 11 l) with
-    | .error e => some (.error e)
-    | .ok cid =>
-      match findIdx ids cid with
-      | none => none
-      | some c =>
-        let fields := [slice 11 16 l, slice 16 21 l, slice 21 26 l, slice 26 31 l]
-        let decoded := (fields.map decodeH36).takeWhile (fun r => match r with | .ok _ => true | .error _ => false)
-        let ps := decoded.filterMap (fun r => match r with | .ok v => some v | .error _ => none)
-        match ps.mapM (findIdx ids) with
-        | none => none
-        | some js => some (.ok (js.map fun j => (c, j)))
-  match mapMR perLine con with
+  match mapMR (conectPairs ids) con with
   | none => none
   | some (.error e) => some (.error e)
   | some (.ok pairs) => some (.ok (normBonds pairs.flatten))
